@@ -129,6 +129,46 @@ func runReject(c *eng.Ctx, cf cfg) {
 			c.Count("mismatches_rejected", 1)
 		}
 	}
+	// a refused aggregation must leave the receiver as it was: an aggregator that drops the offending share on
+	// error and goes on (out = accumulator) must not end up with a corrupted accumulator
+	snap := func(s *gshare) (uint64, [][]uint64) {
+		rows := gadgetRows(&s.GadgetCiphertext)
+		cp := make([][]uint64, len(rows))
+		for i := range rows {
+			cp[i] = append([]uint64(nil), rows[i]...)
+		}
+		return s.GaloisElement, cp
+	}
+	sameSnap := func(s *gshare, g uint64, rows [][]uint64) bool {
+		if s.GaloisElement != g {
+			return false
+		}
+		cur := gadgetRows(&s.GadgetCiphertext)
+		if len(cur) != len(rows) {
+			return false
+		}
+		for i := range cur {
+			if len(cur[i]) != len(rows[i]) {
+				return false
+			}
+			for j := range cur[i] {
+				if cur[i][j] != rows[i][j] {
+					return false
+				}
+			}
+		}
+		return true
+	}
+	expectErrIntact := func(proto, entry, kind, place string, out *gshare, f func() error, detail string) {
+		g, rows := snap(out)
+		var err error
+		p, _ := eng.Panics(func() { err = f() })
+		if !p && err != nil {
+			c.Check(sameSnap(out, g, rows), "C14|"+proto+"."+entry+"|refused-but-receiver-modified|"+kind, func() string {
+				return fmt.Sprintf("the call returned %q but the output share was modified: %s, placement %s", err.Error(), detail, place)
+			})
+		}
+	}
 
 	for _, m := range mm {
 		ab := [2]evkp{m.a, m.b}
@@ -141,6 +181,14 @@ func runReject(c *eng.Ctx, cf cfg) {
 			}, detail)
 			s1, s2, s3 = newShare(ab[pl.x], gal1), newShare(ab[pl.y], gal1), newShare(ab[pl.z], gal1)
 			expectErr("GaloisKeyGenProtocol", "AggregateShares", m.kind, pl.name, func() error { return gp.AggregateShares(s1, s2, &s3) }, detail)
+			if pl.z == pl.x {
+				a1, a2 := newShare(ab[pl.x], gal1), newShare(ab[pl.y], gal1)
+				expectErrIntact("GaloisKeyGenProtocol", "AggregateShares", m.kind, pl.name+"/acc", &a1, func() error { return gp.AggregateShares(a1, a2, &a1) }, detail)
+				b1, b2 := newShare(ab[pl.x], gal1), newShare(ab[pl.y], gal1)
+				expectErrIntact("EvaluationKeyGenProtocol", "AggregateShares", m.kind, pl.name+"/acc", &b1, func() error {
+					return ep.AggregateShares(b1.EvaluationKeyGenShare, b2.EvaluationKeyGenShare, &b1.EvaluationKeyGenShare)
+				}, detail)
+			}
 			// relinearisation shares: the method has no error result; anything but a refusal is a violation.
 			// One signature for every kind: the method validates nothing.
 			if pl.x != pl.y {
@@ -203,6 +251,9 @@ func runReject(c *eng.Ctx, cf cfg) {
 			gs := [2]uint64{gal1, g2}
 			s1, s2, s3 := newShare(p, gs[pl.x]), newShare(p, gs[pl.y]), newShare(p, gs[pl.z])
 			expectErr("GaloisKeyGenProtocol", "AggregateShares", "galois-element", pl.name, func() error { return gp.AggregateShares(s1, s2, &s3) }, detail)
+			// same mismatch, accumulator style: the output is (a copy of) the first operand
+			a1, a2 := newShare(p, gs[pl.x]), newShare(p, gs[pl.y])
+			expectErrIntact("GaloisKeyGenProtocol", "AggregateShares", "galois-element", pl.name+"/acc", &a1, func() error { return gp.AggregateShares(a1, a2, &a1) }, detail)
 		}
 	}
 	// positive control: matching operands are accepted
